@@ -7,7 +7,7 @@ use crate::engine::{no_panic, replay_case, CaseReport, Run, Verdict, Violation};
 use crate::model::{ADict, AObj};
 use crate::refimpl::sec::sec::Cipher;
 use crate::viol;
-use lopdf::{Document, Object};
+use lopdf::{Document, Object, ObjectId};
 use proptest::prelude::*;
 use serde::{Deserialize, Serialize};
 use serde_json::Value;
@@ -18,6 +18,80 @@ pub struct Case {
     pub doc: CDoc,
     pub wrong_pw: String,
     pub xref_stream: bool,
+    /// the document is not built in memory but loaded from a (reference-written, unencrypted) file with object streams,
+    /// and one of the objects that came out of an object stream is edited before encrypting: the containers stay in the
+    /// loaded document next to their members, and decrypting must not bring the stale copies back
+    #[serde(default)]
+    pub via_objstm_file: bool,
+}
+
+fn first_string_replaced(o: &AObj, with: &[u8], done: &mut bool) -> AObj {
+    match o {
+        AObj::Str(_, h) if !*done => {
+            *done = true;
+            AObj::Str(crate::model::B(with.to_vec()), *h)
+        }
+        AObj::Array(a) => AObj::Array(a.iter().map(|x| first_string_replaced(x, with, done)).collect()),
+        AObj::Dict(d) => AObj::Dict(d.iter().map(|(k, v)| (k.clone(), first_string_replaced(v, with, done))).collect()),
+        other => other.clone(),
+    }
+}
+
+/// (document as loaded and edited, what it must contain)
+fn loaded_from_objstm_file(cfg: &Config, cdoc: &CDoc, seed: u64, rep: &mut CaseReport) -> Result<Option<(Document, CDoc)>, Violation> {
+    use crate::refimpl::writer::{self, WFile, WRevision};
+    let id = AObj::Array(vec![AObj::Str(cfg.id0.clone(), true), AObj::Str(cfg.id0.clone(), true)]);
+    let mut tape = vec![];
+    let mut x = seed | 1;
+    for _ in 0..96 {
+        x = x.wrapping_mul(6364136223846793005).wrapping_add(1442695040888963407);
+        tape.push((x >> 33) as u8);
+    }
+    let wf = WFile {
+        version: "1.7".into(),
+        binary_mark: crate::model::B(vec![0xe2, 0xe3, 0xcf, 0xd3]),
+        junk: crate::model::B(vec![]),
+        xref_stream: true,
+        objstm: true,
+        revisions: vec![WRevision { objects: cdoc.objects.clone(), trailer: vec![(crate::model::B::from("ID"), id)] }],
+        tape: crate::model::B(tape),
+        raw_eol_in_strings: false,
+        quirks: 0,
+    };
+    let out = writer::write(&wf);
+    crate::refimpl::strict::read(&out.bytes).map_err(|e| viol!("harness-ref-writer-invalid", "rule {}: {}", e.rule, e.msg))?;
+    let Ok(mut doc) = Document::load_mem(&out.bytes) else {
+        rep.exclude("object-stream-file-not-loaded (C02's business)");
+        return Ok(None);
+    };
+    let mut model = cdoc.clone();
+    let target = model.objects.iter().position(|(n, _, o)| {
+        let mut has = false;
+        o.visit(&mut |x| has |= matches!(x, AObj::Str(..)));
+        has && !matches!(o, AObj::Stream(..)) && matches!(out.placement[0].get(n), Some(Some(_)))
+    });
+    if let Some(i) = target {
+        let (n, g, o) = model.objects[i].clone();
+        let mut done = false;
+        let edited = first_string_replaced(&o, b"edited after loading from an object stream", &mut done);
+        doc.objects.insert((n, g), edited.to_object());
+        model.objects[i] = (n, g, edited);
+        rep.label("edited-member-of-object-stream");
+    }
+    // stream lengths held by separate objects are the writer's business: make them direct
+    let ids: Vec<ObjectId> = doc.objects.keys().cloned().collect();
+    for id in ids {
+        if let Some(Object::Stream(s)) = doc.objects.get_mut(&id) {
+            let len = s.content.len() as i64;
+            s.dict.set("Length", len);
+        }
+    }
+    // the integers holding indirect stream lengths stay in the document as ordinary objects
+    for ((n, g), v) in &out.length_objects[0] {
+        model.objects.push((*n, *g, v.clone()));
+    }
+    rep.label("base-loaded-from-object-stream-file");
+    Ok(Some((doc, model)))
 }
 
 /// Crypt filters on streams only exist from V4 on
@@ -124,8 +198,12 @@ pub fn check(case: &Case) -> Verdict {
     let mut rep = CaseReport::new();
     let cfg = &case.cfg;
     let cdoc = normalise_doc(cfg, &case.doc);
-    let plain = cdoc.to_document(&cfg.id0.0, case.xref_stream);
-    let _rng = FixedLopdfRng::new(crate::engine::fnv64(&serde_json::to_vec(case).unwrap_or_default()));
+    let case_hash = crate::engine::fnv64(&serde_json::to_vec(case).unwrap_or_default());
+    let (plain, cdoc) = match if case.via_objstm_file { loaded_from_objstm_file(cfg, &cdoc, case_hash, &mut rep)? } else { None } {
+        Some(x) => x,
+        None => (cdoc.to_document(&cfg.id0.0, case.xref_stream), cdoc),
+    };
+    let _rng = FixedLopdfRng::new(case_hash);
     let state = match no_panic("EncryptionState::try_from", || cfg.lopdf_state(&plain))? {
         Ok(s) => s,
         Err(e) => {
@@ -252,7 +330,7 @@ pub fn strategy(sw: Switches) -> BoxedStrategy<Case> {
                     }
                 }
             }
-            Case { cfg, doc, wrong_pw, xref_stream }
+            Case { cfg, doc, wrong_pw, xref_stream, via_objstm_file: false }
         })
         .boxed()
 }
@@ -268,7 +346,7 @@ pub fn switches(run: &Run) -> Switches {
 }
 
 pub fn run(run: &mut Run) {
-    run.rule = "cases: documents (strings nested in arrays and dictionaries and inside stream dictionaries, binary and empty strings/streams, /Type /Metadata streams, streams with /Filter /Crypt and a named, predefined-Identity or missing filter name) x {V1; V2 with 40..128-bit keys; V4 with StdCF and Alt chosen from RC4 / AESV2 / None and StmF, StrF chosen independently incl. the predefined Identity; R5; V5} x EncryptMetadata x permission subsets x user/owner passwords (empty, ASCII, Latin-1 / non-Latin, > 32 and > 127 bytes, owner == user) x xref format. Oracle: after encrypt() is_encrypted and no string/stream of >= 16 bytes under a non-identity filter equals its plaintext; for BOTH passwords decrypt() is Ok and every object equals the original with /Encrypt and the encryption dictionary gone, in memory and after save_to + load_mem; a wrong password (different effective bytes) is rejected and leaves the document bit-identical. non-trivial = >= 1 string and >= 1 stream of >= 16 bytes under a non-identity filter; distinct by case hash.".into();
+    run.rule = "cases: documents (strings nested in arrays and dictionaries and inside stream dictionaries, binary and empty strings/streams, /Type /Metadata streams, streams with /Filter /Crypt and a named, predefined-Identity or missing filter name) x {V1; V2 with 40..128-bit keys; V4 with StdCF and Alt chosen from RC4 / AESV2 / None and StmF, StrF chosen independently incl. the predefined Identity; R5; V5} x EncryptMetadata x permission subsets x user/owner passwords (empty, ASCII, Latin-1 / non-Latin, > 32 and > 127 bytes, owner == user) x xref format; a second campaign takes the document not from memory but from a reference-written file with object streams and edits one member after loading (the containers stay in the loaded document). Oracle: after encrypt() is_encrypted and no string/stream of >= 16 bytes under a non-identity filter equals its plaintext; for BOTH passwords decrypt() is Ok and every object equals the original with /Encrypt and the encryption dictionary gone, in memory and after save_to + load_mem; a wrong password (different effective bytes) is rejected and leaves the document bit-identical. non-trivial = >= 1 string and >= 1 stream of >= 16 bytes under a non-identity filter; distinct by case hash.".into();
     run.assumptions = vec![
         "password alphabets are restricted to characters whose preparation is known independently (PDFDocEncoding code = code point for R <= 4; per-character SASLprep table from Python for R >= 5)".into(),
         "an EncryptionState that lopdf refuses to build (e.g. unencodable password) is outside the claim and counted".into(),
@@ -277,6 +355,17 @@ pub fn run(run: &mut Run) {
     let sw = switches(run);
     let n = run.tier.pick(12_000, 300_000);
     run.campaign("encrypt-decrypt", move || strategy(sw), n, check, |_c, _v| None);
+    // the same round trip on documents loaded from a file with object streams, one member edited after loading
+    run.campaign(
+        "encrypt-decrypt-loaded-from-object-streams",
+        move || strategy(sw).prop_map(|mut c| {
+            c.via_objstm_file = true;
+            c
+        }),
+        run.tier.pick(2_000, 60_000),
+        check,
+        |_c, _v| None,
+    );
 }
 
 pub fn replay(file: &Value) -> Result<Verdict, String> {
